@@ -729,7 +729,7 @@ func (vc *FuncVC) appendOp(s *State, cc *ssa.CallCommon, args []Term, pos token.
 				R := vc.freshConst("append_new", is)
 				vc.emit("(assert (=> %s (= (select %s (s!len %s)) %s)))", s.pc.S, R.S, sl.S, v.S)
 				if vc.useQuantSlices {
-					vc.emit("(assert (=> %s (forall ((j!q Int)) (! (=> (and (<= 0 j!q) (< j!q (s!len %s))) (= (select %s j!q) (select (select %s (s!arr %s)) (+ (s!off %s) j!q)))) :pattern ((select %s j!q))))))",
+					vc.emit("(assert (=> %s (forall ((j!q Int)) (! (=> (and (<= 0 j!q) (< j!q (s!len %s))) (= (select %s j!q) (select (select %s (s!arr %s)) (ix (s!off %s) j!q)))) :pattern ((select %s j!q))))))",
 						s.pc.S, sl.S, R.S, h.S, sl.S, sl.S, R.S)
 				}
 				nh := T(hs, fmt.Sprintf("(ite %s (store %s (s!arr %s) (store (select %s (s!arr %s)) (+ (s!off %s) (s!len %s)) %s)) (store %s %s %s))",
@@ -756,10 +756,10 @@ func (vc *FuncVC) appendOp(s *State, cc *ssa.CallCommon, args []Term, pos token.
 	if vc.useQuantSlices {
 		q := "j!q"
 		// in place: elements [off+len, off+n) of arr are written from t, rest unchanged
-		vc.emit("(assert (=> (and %s %s) (forall ((r!q Int) (%s Int)) (! (= (select (select %s r!q) %s) (ite (and (= r!q (s!arr %s)) (<= (+ (s!off %s) (s!len %s)) %s) (< %s (+ (s!off %s) %s))) (select (select %s (s!arr %s)) (+ (s!off %s) (- %s (+ (s!off %s) (s!len %s))))) (select (select %s r!q) %s))) :pattern ((select (select %s r!q) %s))))))",
+		vc.emit("(assert (=> (and %s %s) (forall ((r!q Int) (%s Int)) (! (= (select (select %s r!q) %s) (ite (and (= r!q (s!arr %s)) (<= (+ (s!off %s) (s!len %s)) %s) (< %s (+ (s!off %s) %s))) (select (select %s (s!arr %s)) (ix (s!off %s) (- %s (+ (s!off %s) (s!len %s))))) (select (select %s r!q) %s))) :pattern ((select (select %s r!q) %s))))))",
 			s.pc.S, inplace.S, q, nh.S, q, sl.S, sl.S, sl.S, q, q, sl.S, n.S, h.S, t.S, t.S, q, sl.S, sl.S, h.S, q, nh.S, q)
 		// reallocated: new array r holds old elements then t's; other arrays unchanged
-		vc.emit("(assert (=> (and %s (not %s)) (forall ((r!q Int) (%s Int)) (! (= (select (select %s r!q) %s) (ite (= r!q %s) (ite (< %s (s!len %s)) (select (select %s (s!arr %s)) (+ (s!off %s) %s)) (select (select %s (s!arr %s)) (+ (s!off %s) (- %s (s!len %s))))) (select (select %s r!q) %s))) :pattern ((select (select %s r!q) %s))))))",
+		vc.emit("(assert (=> (and %s (not %s)) (forall ((r!q Int) (%s Int)) (! (= (select (select %s r!q) %s) (ite (= r!q %s) (ite (< %s (s!len %s)) (select (select %s (s!arr %s)) (ix (s!off %s) %s)) (select (select %s (s!arr %s)) (ix (s!off %s) (- %s (s!len %s))))) (select (select %s r!q) %s))) :pattern ((select (select %s r!q) %s))))))",
 			s.pc.S, inplace.S, q, nh.S, q, r.S, q, sl.S, h.S, sl.S, sl.S, q, h.S, t.S, t.S, q, sl.S, h.S, q, nh.S, q)
 	}
 	vc.set(s, "A:"+es, nh)
@@ -979,6 +979,9 @@ func mentions(x Expr, name string) bool {
 
 func pureDeps(c *Contract) []string {
 	if c != nil && len(c.PureDeps) > 0 {
+		if len(c.PureDeps) == 1 && c.PureDeps[0] == "none" { // a function of its arguments only
+			return nil
+		}
 		return c.PureDeps
 	}
 	return []string{"ASH", "ASHP"}
